@@ -439,6 +439,51 @@ def bbox_of_copies(ctx, kind, how, first):
     look('copy.again', cp, P2)
 
 
+@scenario('C18', fns=['BSpline.Curve.evaluate', 'BSpline.Surface.evaluate', 'BSpline.Volume.evaluate', 'abstract.SplineGeometry.bbox',
+                      'abstract.SplineGeometry.domain', 'linalg.linspace'],
+          quick=[dict(kind=k, deg=d, sizes=z, rational=r) for k, d, z, r in
+                 (('curve', [2], [4], False), ('surface', [1, 2], [3, 4], False), ('surface', [2, 1], [4, 3], True),
+                  ('volume', [1, 1, 2], [2, 3, 4], False), ('volume', [2, 1, 1], [4, 2, 3], True))])
+def unclamped_grid_in_bbox(ctx, kind, deg, sizes, rational):
+    """requires: UNCLAMPED uniform knot vectors (concrete; the domain [U[p], U[n]] is a proper part of the knot range), an
+                 ordered symbolic net, positive weights, sample size 3 per direction
+       ensures : the default sampled grid (evalpts) stays inside the parametric domain: every sampled point lies in the
+                 bounding box of the control net, the first / last sampled point is the shape at the lower / upper corner
+                 of obj.domain, and there are 3^d of them"""
+    nd = len(deg)
+    kvs = [[ctx.lit(Fraction(i, sizes[a] + deg[a])) for i in range(sizes[a] + deg[a] + 1)] for a in range(nd)]
+    total = 1
+    for z in sizes:
+        total *= z
+    dim = 2 if kind == 'curve' else 3
+    pm = _perm(total, 'mix')
+    P = _sorted_net(ctx, total, dim, pm, strict=False)
+    W = shapes.weights(ctx, 'w', total) if rational else None
+    if kind == 'curve':
+        obj = shapes.build_curve(ctx, deg[0], kvs[0], P, W)
+        obj.sample_size = 3
+    elif kind == 'surface':
+        obj = shapes.build_surface(ctx, deg[0], deg[1], kvs[0], kvs[1], P, sizes[0], sizes[1], W)
+        obj.sample_size_u, obj.sample_size_v = 3, 3
+    else:
+        obj = shapes.build_volume(ctx, deg[0], deg[1], deg[2], kvs[0], kvs[1], kvs[2], P, sizes[0], sizes[1], sizes[2], W)
+        obj.sample_size_u, obj.sample_size_v, obj.sample_size_w = 3, 3, 3
+    dom = obj.domain if nd > 1 else [obj.domain]
+    for a in range(nd):
+        ctx.check_eq_vec('domain[%d]=[U[p],U[n]]' % a, dom[a], [kvs[a][deg[a]], kvs[a][sizes[a]]])
+    lo, hi = _minmax(ctx, P, pm, dim)
+    pts = obj.evalpts
+    ctx.check_true('grid.count', len(pts) == 3 ** nd, '%d sampled points' % len(pts))
+    first = [dom[a][0] for a in range(nd)]
+    last = [dom[a][1] for a in range(nd)]
+    ctx.check_eq_vec('grid.first=shape(domain start)', pts[0], obj.evaluate_single(first[0] if nd == 1 else first))
+    ctx.check_eq_vec('grid.last=shape(domain end)', pts[-1], obj.evaluate_single(last[0] if nd == 1 else last))
+    if not rational:
+        for k, q in enumerate(pts):
+            for d in range(dim):
+                ctx.check('grid[%d][%d].inside_bbox' % (k, d), ctx.all(ctx.le(lo[d], q[d]), ctx.le(q[d], hi[d])), nonlinear=True)
+
+
 def _inside_shapes(tier):
     out = [dict(kind='curve', deg=[1], sizes=[3], rational=False, perm='mix'),
            dict(kind='curve', deg=[2], sizes=[4], rational=False, perm='id'),
